@@ -89,6 +89,13 @@ def lookupLine (st : LkRun) (lineNo : Nat) (line : String) : Except String (LkRu
       let nf := (outs.filter (·.startsWith "PROPFAIL")).length
       let key := s!"lookupc:n{cs.length}:q{min reqs.length 4}:{if firstHandle.isSome then "ok" else "nohandle"}:{if deterministic then "det" else "race"}"
       .ok ({ st with cases := st.cases + 1, fails := st.fails + nf, diverges := st.diverges + (outs.length - nf), cover := bump st.cover key }, outs)
+  | "lookupcrowd" :: rest =>
+    -- a patient caller among a crowd of callers whose contexts have already ended
+    let fs := fields rest
+    let get := fun k => (lookup fs k).getD ""
+    let outs := if get "bad" == "0" then [] else
+      [s!"PROPFAIL C16 not_failed_by_others line={lineNo} a caller whose context never ended, on a healthy service, was refused its handle in {get "bad"} of {get "trials"} trials while callers with ended contexts kept asking for the same name; first result: {((unhexStr (get "first")).getD (get "first")).take 200}"]
+    .ok ({ st with cases := st.cases + 1, fails := st.fails + outs.length, cover := bump st.cover "lookupcrowd" }, outs)
   | _ => if line.startsWith "#" || line.isEmpty || line.startsWith "begin" then .ok (st, []) else .error s!"line {lineNo}: unknown line kind"
 
 end Setec.Driver
